@@ -2,7 +2,7 @@
 From Coq Require Import Lia ZifyBool ZifyNat ZifyN Permutation.
 From VF Require Import Pool.Model Pool.Spec.
 From VF Require Export Pool.ProofsAlloc Pool.ProofsInv Pool.ProofsDev Pool.ProofsWrite Pool.ProofsContent Pool.ProofsRead Pool.ProofsRefine
-  Pool.ProofsEvents Pool.ProofsTrunc Pool.ProofsSeek Pool.ProofsMonitor Pool.ProofsMonitor2.
+  Pool.ProofsEvents Pool.ProofsTrunc Pool.ProofsSeek Pool.ProofsMonitor Pool.ProofsMonitor2 Pool.ProofsWords.
 
 (* ---- sectors_partition ----------------------------------------------------------- *)
 
